@@ -148,39 +148,53 @@ class C34(Check):
         ts = e.sym(tgt)
         if hs is None or ts is None:
             raise Inconclusive(f"symbol {holder}/{tgt} missing from wild's .symtab")
-        # replacement: a different symbol of the same kind (function/data) at a different address
+        # Replacement target: either a different symbol of the same kind (function/data) at a different
+        # address, or the same symbol displaced by a delta (a small offset, or one that only changes the
+        # upper half of a 64-bit field).
         prefix = tgt[0]
         cands = [s for s in e.symtab() if s.name.startswith(prefix) and s.name[1:].isdigit() and s.name != tgt
                  and s.value != ts.value and s.shndx != 0]
-        if not cands:
-            return {"nontrivial": False, "classes": ["no-replacement"], "key": "none"}
-        new = sorted(cands, key=lambda s: s.name)[case["to"] % len(cands)]
+        mode = case["to"] % 8
+        deltas64 = {3: 4, 4: -4, 5: 1 << 32, 6: -(1 << 32), 7: 1 << 45}
         place = hs.value + foff
         fo = e.vaddr_to_off(place)
         data = bytearray(open(f"{d}/w.out", "rb").read())
+        if kind == "abs64" and mode in deltas64:
+            newval = (ts.value + deltas64[mode]) & 0xffffffffffffffff
+            newname = f"{tgt}{deltas64[mode]:+#x}"
+            ckind = f"abs64-delta:{'hi' if abs(deltas64[mode]) >= 1 << 32 else 'lo'}"
+        elif kind != "abs64" and mode == 7:
+            newval = ts.value + 1
+            newname = f"{tgt}+1"
+            ckind = f"{kind}-delta"
+        else:
+            if not cands:
+                return {"nontrivial": False, "classes": ["no-replacement"], "key": "none"}
+            new = sorted(cands, key=lambda s: s.name)[(case["to"] // 8) % len(cands)]
+            newval, newname, ckind = new.value, new.name, kind
         if kind == "abs64":
             old = struct.unpack_from("<Q", data, fo)[0]
             if old != ts.value:
                 raise Inconclusive(f"site {holder} holds {old:#x}, expected address of {tgt} {ts.value:#x}")
-            struct.pack_into("<Q", data, fo, new.value)
+            struct.pack_into("<Q", data, fo, newval)
         else:
             old = struct.unpack_from("<i", data, fo)[0]
             pc = hs.value + next_off
             if (pc + old) & 0xffffffffffffffff != ts.value:
                 raise Inconclusive(f"site {holder}+{foff} resolves to {pc + old:#x}, expected {tgt} at {ts.value:#x}")
-            struct.pack_into("<i", data, fo, new.value - pc)
+            struct.pack_into("<i", data, fo, newval - pc)
         with open(f"{d}/bad.out", "wb") as f:
             f.write(data)
         os.chmod(f"{d}/bad.out", 0o755)
         if os.path.exists(f"{d}/w.out.layout"):
             shutil.copy(f"{d}/w.out.layout", f"{d}/bad.out.layout")
         r = diff("bad.out", "l.out")
-        classes.append(f"corrupt:{kind}")
+        classes.append(f"corrupt:{ckind}")
         if r.rc == 0:
-            raise Violation(f"missed-corruption:{kind}",
-                            f"{kind} reference in {holder}+{foff:#x} redirected from {tgt} ({ts.value:#x}) to {new.name} ({new.value:#x}); "
+            raise Violation(f"missed-corruption:{ckind}",
+                            f"{kind} reference in {holder}+{foff:#x} redirected from {tgt} ({ts.value:#x}) to {newname} ({newval:#x}); "
                             f"linker-diff against the GNU ld output reports nothing", {"stdout": r.out[-300:]})
-        return {"nontrivial": True, "key": f"{kind}/{case['nf']}/{case['nd']}/{core.case_hash(case['bodies'])}", "classes": classes,
+        return {"nontrivial": True, "key": f"{ckind}/{case['nf']}/{case['nd']}/{core.case_hash(case['bodies'])}", "classes": classes,
                 "counters": {"equal_pairs_checked": 4, "corruptions_detected": 1}}
 
 
